@@ -84,6 +84,29 @@ fn decode(tape: &[u16]) -> CrashCase {
     if ops.is_empty() {
         ops.push(Op::Insert("r0".into(), vec![dom[0].clone()]));
     }
+    // every third history ends with the shape the multi-step operations are sensitive to: a relation
+    // that has flushed batches AND unflushed (WAL / buffer) updates, then a drop / compaction / flush
+    if t.chance(1, 3) {
+        let rel = hist::RELS[t.below(2)].to_string();
+        let absent: Vec<Vec<i64>> = dom.iter().filter(|r| !m.rels.get(&rel).is_some_and(|s| s.contains(*r))).cloned().collect();
+        if absent.len() >= 2 {
+            for (i, r) in absent.iter().take(2).enumerate() {
+                let op = Op::Insert(rel.clone(), vec![r.clone()]);
+                m.apply(&op);
+                ops.push(op);
+                if i == 0 {
+                    ops.push([Op::Save, Op::SaveKg, Op::Compact][t.below(3)].clone());
+                }
+            }
+            let last = match t.below(4) {
+                0 | 1 => Op::DropRel(rel),
+                2 => Op::Compact,
+                _ => Op::Save,
+            };
+            m.apply(&last);
+            ops.push(last);
+        }
+    }
     let power = (0..3).map(|_| (((t.next() as u64) << 16) | t.next() as u64, t.below(4))).collect();
     CrashCase { ops, buffer_size: [1, 3, 10_000][t.below(3)], power }
 }
@@ -305,7 +328,7 @@ pub fn run(ctx: &Ctx) {
     );
     ctx.assume("effective writes and Int64 columns only, so findings C11-ineffective-writes-logged and C12-mixed-kind-column cannot masquerade as crash bugs");
     ctx.assume("power-loss model: only suffix loss of unsynced data per file and of unsynced entry operations per directory");
-    ctx.run_part("crash_point_enumeration", ctx.cases(48, 1500), || tape_strategy(60).prop_map(|t| decode(&t)), |c, o| check(ctx, c, o));
+    ctx.run_part("crash_point_enumeration", ctx.cases(240, 4000), || tape_strategy(60).prop_map(|t| decode(&t)), |c, o| check(ctx, c, o));
 }
 
 pub fn replay(ctx: &Ctx, part: &str, case: &J) -> Option<Result<CheckResult, String>> {
